@@ -12,7 +12,7 @@ import subprocess
 import sys
 
 VERIF = os.path.dirname(os.path.dirname(os.path.abspath(__file__)))
-SEEDED = os.path.join(VERIF, "seeded")
+SEEDED = os.environ.get("VERIF_SEEDED_DIR") or os.path.join(VERIF, "seeded")
 
 
 def import_new():
@@ -79,7 +79,19 @@ def main():
     ap.add_argument("--force", action="store_true")
     ap.add_argument("--jobs", type=int, default=2)
     ap.add_argument("--also", default="")
+    ap.add_argument("--snapshot", action="store_true",
+                    help="evaluate with a frozen copy of /verif, so that edits made meanwhile do not interfere")
     a = ap.parse_args()
+    if a.snapshot:
+        snap = "/tmp/verif_snap_%d" % os.getpid()
+        subprocess.run(["rsync", "-a", "--exclude", ".work*", "--exclude", "replays", "--exclude", "seeded",
+                        "--exclude", ".git", VERIF + "/", snap + "/"], check=True)
+        args = [x for x in sys.argv[1:] if x != "--snapshot"]
+        env = dict(os.environ, VERIF_SEEDED_DIR=SEEDED)
+        try:
+            return subprocess.call(["/venv/bin/python", os.path.join(snap, "tools", "run_all_seeded.py")] + args, env=env)
+        finally:
+            shutil.rmtree(snap, ignore_errors=True)
     os.makedirs(SEEDED, exist_ok=True)
     import_new()
     names = [os.path.basename(d) for d in sorted(glob.glob(os.path.join(SEEDED, "C*_*mut*")))]
